@@ -907,10 +907,18 @@ def run_cond_fault(spec, acc):
                 log.append(('late', v))
             stm.Routine(late).play(clk.SystemClock)
         time.sleep(0.12)
+        if not use_flow:
+            # (bounded wait, ends as soon as every waiter that must go on has)
+            fb = min([k for k in range(n) if where[k] in stopped], default=n)
+            need = [k for k in range(n) if k < fb or (k > fb and where[k] not in stopped)]
+            t_w = time.time() + 20.0
+            while time.time() < t_w and not all(
+                    any(e[0] == 'gate' and e[1] == k for e in list(log)) for k in need):
+                time.sleep(0.01)
         if use_flow:
             # (bounded wait instead of a fixed one: on a loaded host the clock thread
             # may need longer than 0.12 s to serve the late reader)
-            t_late = time.time() + 5.0
+            t_late = time.time() + 20.0
             while time.time() < t_late and not any(e[0] == 'late' for e in list(log)):
                 time.sleep(0.01)
         with main._main_lock:
@@ -1053,7 +1061,7 @@ def run_cond_race(spec, acc):
                 release()
 
             def releaser():
-                if not go.wait(5.0):
+                if not go.wait(30.0):
                     err.append('wait() never evaluated the test')
                     return
                 if who == 'thread':
@@ -1063,10 +1071,13 @@ def run_cond_race(spec, acc):
             th = threading.Thread(target=releaser, daemon=True, name='vf-releaser')
             th.start()
             r.play(wclock, 0) if wclock is tc else r.play(wclock)
-            t_end = time.time() + 3.0
+            # bounded progress: 30 s on any host (the loop ends as soon as the
+            # waiter went on; thorough at a load of ten processes per core once
+            # needed more than the 3 s / 5 s this started with)
+            t_end = time.time() + 30.0
             while len(resumed) < 2 and time.time() < t_end:
                 time.sleep(0.002)
-            th.join(1.0)
+            th.join(1.0 if len(resumed) >= 2 else 31.0)
             acc.count('cond_race_cases')
             acc.count(f'cond_race/{how}/from-{who}')
             acc.case(h64(('crace', i)), nontrivial=True)
@@ -1312,7 +1323,7 @@ def run_pause_resume(spec, acc):
                               {'case': i, 'tb': short_tb(e)})
                 continue
         else:
-            t_end = time.time() + 4.0
+            t_end = time.time() + 20.0      # (ends as soon as the routine is done)
             while time.time() < t_end:
                 time.sleep(0.02)
                 with main._main_lock:
